@@ -136,3 +136,10 @@ def c17_listed(v, f):
         p = os.path.join(ROOT, "known", "C17_cases.json")
         _c17 = {k: set(x) for k, x in json.load(open(p)).items()} if os.path.exists(p) else {}
     return c17_category(v) == f["id"] and c17_digest(v) in _c17.get(f["id"], set())
+
+
+@predicate
+def f10b_multi_do_descendant(v, f):
+    """joint intervention whose default (parent) adjustment set contains a descendant of another do-variable"""
+    d = v.get("detail") or {}
+    return bool(d.get("multi_do") and d.get("default_adjustment_contains_descendant_of_do"))
